@@ -807,6 +807,7 @@ pub fn replay_one(spec: &str, out_dir: &str, c08: bool) -> i32 {
                 "add" if c08 => crate::c08::prop_add(&*imp, &key, &a[0], &a[1], &a[2], &a[3], &mut out, true),
                 "addc" if c08 => crate::c08::prop_add_c(&*imp, &key, "addc", &a[0], &a[1], &a[2], &a[3], &mut out, true),
                 "mul" if c08 => crate::c08::prop_mul(&*imp, &key, &a[0], &a[1], &a[2], &mut out, true),
+                "mulc" if c08 => crate::c08::prop_mul_c(&*imp, &key, "mulc", &a[0], &a[1], &a[2], &mut out, true),
                 other => {
                     eprintln!("unknown replay property {other}");
                     return 2;
